@@ -424,6 +424,8 @@ func c04Guard(c *Ctx) {
 				w.dump(g)
 			}
 		}
+		// last in the case (a far expiration that gets through is replayed on a guard of its own)
+		w.windowOps(t0 + uint32(rnd.Intn(50)))
 	}
 }
 
@@ -546,4 +548,113 @@ func (w *c04World) restartOracle(old, ng *txpool.TxGuard, stable *c04Blk, seen [
 			w.c.Fail("c04/restart-differs", fmt.Sprintf("tx %d (exp %d, stable time %d): continuous guard says %s, rebuilt guard says %s", t.id, t.exp, st, a, b), nil)
 		}
 	}
+}
+
+// c04InWindow: VerifyTxBody's time rule in the harness's own unsigned arithmetic.
+func c04InWindow(exp uint64, t uint32) bool {
+	return exp >= uint64(t) && exp-uint64(t) <= uint64(params.MaxTxLifeTime)
+}
+
+// windowOps: expiration boundary values over the whole uint64 range, top level and as box sub-tx, through the real
+// Transaction.VerifyTxBody.  Compared with the model (`window` op) AND, independently of the model driver, with the
+// harness's own arithmetic (c04/window-accepts-far-expiration, c04/window-refuses-valid-expiration).  If the real
+// check lets a far expiration through, the consequence is played on the real guard: the block is saved, 34 empty
+// blocks one a minute each become stable (SaveBlock + DelOldBlocks), then verifyTxs' two questions are asked again
+// for the same tx on the tip (c04/replayed/after-guard-pruned).
+func (w *c04World) windowOps(t uint32) {
+	c := w.c
+	bt := uint64(t)
+	type cand struct {
+		name string
+		exp  uint64
+	}
+	all := []cand{
+		{"t-1", bt - 1}, {"t", bt}, {"t+1", bt + 1}, {"t+1799", bt + 1799}, {"t+1800", bt + 1800}, {"t+1801", bt + 1801}, {"t+2h", bt + 7200},
+		{"2^31", 1 << 31}, {"2^32", 1 << 32}, {"2^32+t", 1<<32 + bt}, {"2^62", 1 << 62}, {"2^63-1", 1<<63 - 1}, {"2^63", 1 << 63},
+		{"2^63+t-1", 1<<63 + bt - 1}, {"2^63+t", 1<<63 + bt}, {"2^63+t+1800", 1<<63 + bt + 1800}, {"2^63+t+1801", 1<<63 + bt + 1801}, {"2^64-1", ^uint64(0)},
+	}
+	if bt == 0 {
+		all = all[1:]
+	}
+	body := func(x *c04Tx) bool { return x.tx.VerifyTxBody(200, bt, true) == nil }
+	for _, cd := range all {
+		for _, shape := range []string{"top", "sub", "box"} {
+			var x *c04Tx
+			want := false
+			switch shape {
+			case "top":
+				x = w.newTx(cd.exp, nil)
+				want = c04InWindow(cd.exp, t)
+			case "sub": // the box itself expires at the block time; the sub-tx carries the boundary value
+				x = w.newTx(bt, []*c04Tx{w.newTx(cd.exp, nil)})
+				want = cd.exp >= bt && c04InWindow(cd.exp, t)
+			case "box": // the box carries the boundary value; its sub-tx expires together with it (never earlier than the box)
+				x = w.newTx(cd.exp, []*c04Tx{w.newTx(cd.exp, nil)})
+				want = c04InWindow(cd.exp, t)
+			}
+			got := false
+			out := Safe(func() string { got = body(x); return fmt.Sprintf("%v", got) })
+			c.Op(fmt.Sprintf("window %d %s", t, x.token()), out)
+			c.Count(fmt.Sprintf("g:window:%s:%s:%s", shape, cd.name, out))
+			replay := map[string]interface{}{"blockTime": t, "exp": cd.exp, "class": cd.name, "shape": shape, "token": x.token()}
+			if out == "panic" {
+				c04FailCapped(c, "c04/window-check-panics", fmt.Sprintf("VerifyTxBody(blockTime %d) panics on a %s tx with expiration %d (%s)", t, shape, cd.exp, cd.name), replay)
+				continue
+			}
+			if got && !want {
+				c04FailCapped(c, "c04/window-accepts-far-expiration", fmt.Sprintf("VerifyTxBody(blockTime %d) accepts a tx (%s) with expiration %d (%s): %d s ahead as uint64, max life time %d", t, shape, cd.exp, cd.name, cd.exp-bt, params.MaxTxLifeTime), replay)
+				w.prunedReplay(t, x, cd.name, shape)
+			}
+			if !got && want {
+				c04FailCapped(c, "c04/window-refuses-valid-expiration", fmt.Sprintf("VerifyTxBody(blockTime %d) refuses a tx (%s) with expiration %d (%s) inside its life time", t, shape, cd.exp, cd.name), replay)
+			}
+		}
+	}
+}
+
+// prunedReplay: only reached when VerifyTxBody accepted an expiration beyond the window.
+func (w *c04World) prunedReplay(t uint32, x *c04Tx, class, shape string) {
+	c := w.c
+	g := txpool.NewTxGuard(t)
+	c.Op(fmt.Sprintf("new %d", t), "ok")
+	save := func(b *c04Blk) {
+		c.Op(fmt.Sprintf("save %d", b.id), Safe(func() string { g.SaveBlock(b.b); return "ok" }))
+		w.dump(g)
+	}
+	root := w.newBlock(nil, 0, t, nil)
+	save(root)
+	a := w.newBlock(root, 1, t, []*c04Tx{x})
+	save(a)
+	tip := a
+	tm := t
+	for i := 0; i < 34; i++ {
+		tm += 61
+		tip = w.newBlock(tip, tip.b.Height()+1, tm, nil)
+		save(tip)
+		out := Safe(func() string { g.DelOldBlocks(tm); return "ok" })
+		c.Op(fmt.Sprintf("del %d", tm), out)
+		if out != "ok" {
+			return // tiny times: DelOldBlocks panics below 1800 s, nothing is pruned
+		}
+		w.dump(g)
+	}
+	tr := tm + 5
+	exist := Safe(func() string { return fmt.Sprintf("%v", g.ExistTxs(tip.b.Hash(), types.Transactions{x.tx})) })
+	c.Op(fmt.Sprintf("exist %d %s", tip.id, x.token()), exist)
+	bodyOK := x.tx.VerifyTxBody(200, uint64(tr), true) == nil
+	c.Count(fmt.Sprintf("g:pruned-replay:exist=%s:body=%v", exist, bodyOK))
+	if exist == "false" && bodyOK {
+		c04FailCapped(c, "c04/replayed/after-guard-pruned", fmt.Sprintf("tx %d (%s, expiration %d = %s) was in block %d (time %d); after 34 stable blocks up to time %d the guard has forgotten it and VerifyTxBody still accepts it at time %d: verifyTxs would accept the same bytes again", x.id, shape, x.exp, class, a.id, t, tm, tr),
+			map[string]interface{}{"blockTime": t, "exp": x.exp, "class": class, "shape": shape, "token": x.token(), "stableTime": tm, "replayTime": tr})
+	}
+}
+
+// c04FailCapped: main.go keeps the first 200 reports of a run; a handful per signature leaves room for the engine part.
+func c04FailCapped(c *Ctx, sig, detail string, replay interface{}) {
+	k := "reports:" + sig
+	c.Count(k)
+	if c.Stats[k] > 6 {
+		return
+	}
+	c.Fail(sig, detail, replay)
 }
